@@ -209,12 +209,15 @@ class HamiltonianChain(MarkovChain):
         )
 
     def finite_diff(self, t: ndarray) -> ndarray:
-        p = self.posterior(t) * self.inv_temp
+        # the leapfrog updates apply the inverse-temperature to the gradient,
+        # so (like a user-supplied gradient) it must not be applied here
+        p = self.posterior(t)
         G = zeros(self.n_parameters)
         for i in range(self.n_parameters):
-            delta = zeros(self.n_parameters) + 1
-            delta[i] += 1e-5
-            G[i] = (self.posterior(t * delta) * self.inv_temp - p) / (t[i] * 1e-5)
+            step = 1e-5 * abs(t[i]) if t[i] != 0.0 else 1e-5
+            t_step = t.copy()
+            t_step[i] += step
+            G[i] = (self.posterior(t_step) - p) / step
         return G
 
     def get_last(self) -> ndarray:
